@@ -431,7 +431,7 @@ def do_check(prop, tier, count=None, jobs=None, seed=None, minimise_budget=45.0,
             },
             "assumptions": ["the reference models encode the documented model of DESIGN.md appendix A",
                             "sqlite3's atomic commit and Python's pickle are trusted",
-                            "worlds are small (<= 9 nodes, <= 8 observations, <= 8 operations)"],
+                            "worlds are small (<= 9 nodes, <= 8 observations, <= 8 operations; thorough tier 30 % up to 12 nodes and 10 observations), except for 3 % town-sized World-A sessions in both tiers (13-26 nodes, 10-24 observations)"],
             "wall_s": round(wall, 2),
             "violations": sum(len(vs) for _, vs in unlisted),
         }
